@@ -36,7 +36,7 @@ PROPS = {
         "thorough": {"runs": 400000, "wall": 900},
         "min_probes": {
             "quick": {"_runs": 5000, "joined-inflight": 100, "window-hook-with-arrival": 50, "failed-download-with-warm-cache": 20,
-                      "rotation-between-handle-and-deliver": 20, "deadline-while-waiting": 20, "two-successive-downloads": 100, "kid-less-ambiguous": 10, "own-context-ended-while-waiting": 200, "call-accepted-after-refresh": 1000},
+                      "rotation-between-handle-and-deliver": 20, "deadline-while-waiting": 20, "two-successive-downloads": 100, "kid-less-ambiguous": 10, "own-context-ended-while-waiting": 200, "call-accepted-after-refresh": 1000, "every-key-withdrawn": 300},
             "thorough": {"_runs": 100000, "joined-inflight": 1000, "window-hook-with-arrival": 1000, "failed-download-with-warm-cache": 500},
         },
         "components": {"real": ["pkg/client/rp.remoteKeySet (jwks.go)", "pkg/http.HttpRequest", "pkg/oidc.FindMatchingKey", "go-jose signature verification", "net/http.Client"],
@@ -61,11 +61,11 @@ PROPS = {
         "DESIGN.md section 4 C04"),
     "C10": dict(flow(
         "W-fault",
-        "deterministic simulation with exhaustive single-fault enumeration: for each flow and router a fault-free pilot counts the storage calls of the target request, then one fresh seeded world per (k, fault kind) fails exactly the k-th storage call",
+        "deterministic simulation with exhaustive single-fault enumeration: for each flow and router a fault-free pilot counts the storage calls of the target request, then one fresh seeded world per (k, fault kind) fails exactly the k-th storage call - after a warm-up history (another client's JWT tokens verified by the provider, keys, discovery, and the idempotent target request itself once fault-free)",
         "one evaluation = one (configuration seed, flow, router): pilot + one simulated world per (k-th storage call of the target request) x (error | context-timeout | torn out-parameter). "
         "distinct non-trivial case = distinct (router, flow, k, fault kind, storage method) in which the fault actually fired inside the target request",
         {"runs": 16, "wall": 90}, {"runs": 2500, "wall": 1200},
-        {"quick": {"_runs": 200, "error": 800, "timeout": 800, "torn": 30, "_distinct": 400},
+        {"quick": {"_runs": 200, "error": 800, "timeout": 800, "torn": 30, "_distinct": 400, "warm-up-jwt-verified": 200, "target-warm-run": 80},
          "thorough": {"_runs": 20000, "error": 50000, "torn": 2000}},
         "Fault enumeration: every storage-call position of every scripted flow on both routers is failed once per fault kind (complete in k for the flows and configurations run); the response is checked for an error answer and for the absence of codes, tokens, claims and active:true.",
         "DESIGN.md section 4 C10", level="fault_enumeration",
@@ -83,19 +83,22 @@ PROPS = {
         "DESIGN.md section 4 C05 and Appendix C"),
     "C07": flow(
         "W-flows",
-        "deterministic simulation: seeded histories of code flows followed by refresh chains by owner and foreign clients with subset/superset/disjoint scopes, replayed and unknown tokens; history oracle against the storage journal",
-        "one evaluation = one seeded world running 40-80 actor steps biased to refresh requests (chains up to 8 long, clock jumps, revocation and logout in between). non-trivial = at least one refresh succeeded; distinct = distinct step history",
+        "deterministic simulation: seeded histories of code flows followed by refresh chains by owner and foreign clients with subset/superset/disjoint scopes, replayed and unknown tokens, storage faults inside refreshes, and scheduled concurrent groups (2-4 requests about one token pair interleaved by the seeded scheduler at every storage call); history oracle against the storage journal, real-time-order rules and a porcupine linearizability cross-check against a two-bit liveness model",
+        "one evaluation = one seeded world running 40-80 actor steps biased to refresh requests (chains up to 8 long, clock jumps, revocation and logout in between; in faulting worlds one storage call of a refresh may fail) and 'race' steps: refreshes, revocations, logout and uses of one token pair as concurrent tasks, "
+        "every interleaving at storage calls and at most one storage fault chosen by the scheduler. non-trivial = at least one refresh succeeded; distinct = distinct step history",
         {"runs": 40, "wall": 90}, {"runs": 8000, "wall": 1200},
-        {"quick": {"_runs": 400, "refresh-success": 1000, "widening-refused": 1000, "refresh-chain-2+": 300}, "thorough": {"_runs": 20000}},
+        {"quick": {"_runs": 400, "refresh-success": 1000, "widening-refused": 1000, "refresh-chain-2+": 300, "race-groups": 1500, "race-refresh-ok": 400, "race-linearizability-checked": 1200, "error": 80, "sched-error": 100},
+         "thorough": {"_runs": 20000, "race-groups": 100000}},
         "Seeded exploration; every successful refresh is checked for client binding, registered grant, scope subset, rotation through the storage (journal), response token = storage's new token, preserved subject/audience/auth_time and non-growing scope along the chain.",
         "DESIGN.md section 4 C07"),
     "C08": flow(
         "W-flows",
-        "deterministic simulation: seeded histories of issuance, userinfo, introspection, revocation, logout and clock jumps past expiry with genuine, tampered, re-encrypted and garbage tokens; reference liveness model",
+        "deterministic simulation: seeded histories of issuance, userinfo, introspection, revocation, logout and clock jumps past expiry with genuine, tampered, re-encrypted and garbage tokens, torn storage faults, and scheduled concurrent groups (uses, revocations, refreshes and logout of one token pair interleaved by the seeded scheduler at every storage call); reference liveness model, real-time-order rules and a porcupine linearizability cross-check",
         "one evaluation = one seeded world running 40-80 actor steps (obtain, userinfo, introspect, revoke with/without hint by owner/foreign/public client, end_session, clock advance to and past expiry). "
         "non-trivial = a token was honoured and a revocation or logout took effect; distinct = distinct step history",
         {"runs": 40, "wall": 90}, {"runs": 8000, "wall": 1200},
-        {"quick": {"_runs": 400, "userinfo-200": 500, "introspect-active": 150, "introspect-inactive": 500, "revocation-effective": 300, "garbage-revocation": 100, "foreign-revocation-attempt": 50, "logout": 300},
+        {"quick": {"_runs": 400, "userinfo-200": 500, "introspect-active": 150, "introspect-inactive": 500, "revocation-effective": 300, "garbage-revocation": 100, "foreign-revocation-attempt": 50, "logout": 300, "race-groups": 1500, "race-use-ok": 600, "race-kill-ok": 1500, "race-use-overlapping-kill": 300,
+                   "race-linearizability-checked": 1200, "subject-with-colon": 100},
          "thorough": {"_runs": 20000}},
         "Seeded exploration; userinfo 200 / active:true imply the token is live in the reference model (and the caller authenticated and in the audience); inactive answers are exactly {active:false}; owner revocation and logout kill the tokens; foreign revocation is refused; garbage revocation answers 200.",
         "DESIGN.md section 4 C08"),
@@ -110,10 +113,10 @@ PROPS = {
         "DESIGN.md section 4 C15"),
     "C09": dict(flow(
         "W-fault",
-        "deterministic simulation with fault enumeration: a fixed catalogue of malformed requests, crafted tokens, hostile provider answers and JSON documents is run completely against the real provider (both routers), the client helpers and the decoders in every seeded world",
+        "deterministic simulation with fault enumeration: (a) a fixed catalogue of malformed requests, crafted tokens, hostile provider answers and JSON documents is run completely against the real provider (both routers), the client helpers and the decoders; (b) storage-fault sweeps - every storage-call position of 27 flows on both routers fails once - judged by the answers-once rules (one response, no panic, no storage call after an error answer)",
         "one evaluation = one seeded world (router, algorithm, token types, capabilities, user-code configuration incl. degenerate ones) x the complete catalogue: ~3150 server requests (42 token payloads x 2 overlays x 12 token sinks, broken token shapes, "
         "10 malformed Basic headers x 10 grant types x 4 endpoints, 10 malformed bodies, 14 routes x 7 methods x 10 queries, 150 seeded mutations), ~1730 faulty-peer answers to 18 client helpers, ~1750 decoder/verifier inputs. "
-        "distinct non-trivial = distinct (router, case) executed plus distinct world configurations",
+        "One world in four is a catalogue world; the other three are fault sweeps of one (flow, router) pair each. distinct non-trivial = distinct (router, case) executed plus distinct world configurations",
         {"runs": 6, "wall": 120}, {"runs": 600, "wall": 1500},
         {"quick": {"_runs": 96, "server-cases": 60000, "client-cases": 30000, "decoder-cases": 30000, "server-error-answers": 30000, "client-errors-returned": 20000, "keyset-child-cases": 1500,
                    "fault-sweep-worlds": 60, "fault-sweep-cases": 500},
@@ -128,7 +131,7 @@ PROPS = {
         "one evaluation = one seeded world (router, user-code alphabet/length/dash interval, lifetime, poll interval) running 30-70 actor steps: start (any client, any credential presentation), approve/deny, poll (right/foreign client, unknown code, "
         "injected storage timeout), clock advance, and a complete client polling loop with approval/denial/expiry after 0-3 polls. non-trivial = tokens were issued at least once; distinct = distinct step history",
         {"runs": 40, "wall": 90}, {"runs": 8000, "wall": 1200},
-        {"quick": {"_runs": 400, "device-started": 1500, "device-tokens": 500, "poll-loop-approve": 500, "poll-answer-slow_down": 100, "poll-answer-expired_token": 100, "poll-answer-access_denied": 100, "storage-timeout": 100},
+        {"quick": {"_runs": 400, "device-started": 1500, "device-tokens": 500, "poll-loop-approve": 500, "poll-answer-slow_down": 100, "poll-answer-expired_token": 100, "poll-answer-access_denied": 100, "storage-timeout": 100, "user-code-collisions": 50},
          "thorough": {"_runs": 20000}},
         "Seeded exploration; tokens imply approval of that code by the ledger user and the initiating, authenticated client; refusals follow the reference state machine (pending/denied/expired/slow_down); response fields follow the configuration; bounded progress of the real polling loop after approval.",
         "DESIGN.md section 4 C16 and Appendix C"),
@@ -143,17 +146,17 @@ PROPS = {
         "DESIGN.md section 4 C03 and Appendix C"),
     "C18": flow(
         "W-flows",
-        "deterministic simulation: seeded end_session requests with genuine, expired (clock jumps), re-signed, foreign-issuer, azp-less, tampered and garbage hints crossed with client_id, post-logout URIs, globs and states on both routers",
+        "deterministic simulation: seeded end_session requests with genuine, expired (clock jumps), re-signed, foreign-issuer, azp-less, tampered and garbage hints and hints of another tenant of the same provider (multi-tenant worlds: issuer from Host or Forwarded header) crossed with client_id, post-logout URIs, globs and states on both routers",
         "one evaluation = one seeded world (router, algorithm, per-client post-logout registrations and globs, id-token lifetimes) running 40-80 steps: obtain id tokens, advance the clock, logout with hint kind x client_id x post_logout_redirect_uri kind x state x GET/POST. "
         "non-trivial = at least one logout redirected and one was rejected",
         {"runs": 40, "wall": 90}, {"runs": 8000, "wall": 1200},
-        {"quick": {"_runs": 400, "logout-redirect": 2000, "logout-rejected": 4000, "redirect-to-registered": 800, "expired-hint-accepted": 300}, "thorough": {"_runs": 20000}},
+        {"quick": {"_runs": 400, "logout-redirect": 2000, "logout-rejected": 4000, "redirect-to-registered": 800, "expired-hint-accepted": 300, "hints-of-other-tenant": 300}, "thorough": {"_runs": 20000}},
         "Seeded exploration; a redirect goes to the default URI or to a URI registered for the client proven by a validly signed hint (or client_id); invalid hints and contradictions are rejected; expired valid hints are accepted; the journal shows the hint's subject and client being terminated; state arrives unchanged.",
         "DESIGN.md section 4 C18"),
     "C17": flow(
         "W-flows",
         "deterministic simulation: seeded interleavings of several login attempts of one real relying party (cookie handler, PKCE on/off) in two browsers, with attacker-crafted callbacks (missing, foreign-instance, swapped, truncated, bit-flipped, replayed and stale cookies); oracle over the simulated network log",
-        "one evaluation = one seeded world (router, PKCE, cookie max-age, auth style) running 30-70 steps: start a login through rp.AuthURLHandler, deliver a callback in one of 16 variants, advance the clock past the cookie age. "
+        "one evaluation = one seeded world (router, PKCE, cookie max-age, auth style) running 30-70 steps: start a login through rp.AuthURLHandler, deliver a callback in one of 17 variants (incl. a state that equals the cookie's only after one more decoding step), advance the clock past the cookie age. "
         "non-trivial = at least one callback led to a token request and one was refused; distinct = distinct step history",
         {"runs": 100, "wall": 60}, {"runs": 40000, "wall": 1200},
         {"quick": {"_runs": 1500, "code-sent-to-provider": 2000, "callback-refused": 15000, "honest-login-completed": 800, "attempt-started": 15000, "concurrent-starts": 2000}, "thorough": {"_runs": 100000}},
@@ -170,28 +173,28 @@ PROPS = {
         "DESIGN.md section 4 C06"),
     "C14": flow(
         "W-flows",
-        "deterministic simulation: seeded assertions (iss, sub, aud, iat, exp on clock boundaries, kid, signing key) presented as jwt-bearer grant and as client authentication at four endpoints, signed request objects, and the library's own client helpers, against the real provider",
+        "deterministic simulation: seeded assertions (iss, sub, aud, iat, exp on clock boundaries, kid, signing key) presented as jwt-bearer grant and as client authentication at four endpoints, signed request objects, and the library's own client helpers, against the real provider - in half of the worlds a multi-tenant provider (2-3 issuers from the Host or, behind a simulated reverse proxy, the Forwarded header) with every step addressed to a seeded tenant",
         "one evaluation = one seeded world running 40-80 steps: generated assertion x 5 surfaces, request object with 0-2 deviations, helper interop (profile, rs, tokenexchange, rp), clock advance. non-trivial = assertions were both accepted and refused",
         {"runs": 40, "wall": 90}, {"runs": 8000, "wall": 1200},
-        {"quick": {"_runs": 400, "assertion-accepted": 2000, "assertion-refused": 5000, "helper-assertions-accepted": 1500, "request-object-honoured": 300, "request-object-not-honoured": 3000}, "thorough": {"_runs": 20000}},
+        {"quick": {"_runs": 400, "assertion-accepted": 2000, "assertion-refused": 5000, "helper-assertions-accepted": 1500, "request-object-honoured": 300, "request-object-not-honoured": 3000, "multi-tenant-steps": 5000}, "thorough": {"_runs": 20000}},
         "Seeded exploration; accepted assertions must be valid in the reference model for the client named as issuer (key, audience, times outside a 2 s band, sub=iss) and the authenticated identity equals the issuer; request-object parameters take effect only for valid objects; helper-made assertions are accepted.",
         "DESIGN.md section 4 C14"),
     "C11": flow(
         "W-flows",
-        "deterministic simulation of the three-party pipeline (provider encodes, user agent decodes query / fragment / auto-submit form, relying party consumes) with seeded hostile parameter values; conservation oracle",
+        "deterministic simulation of the three-party pipeline (provider encodes, user agent decodes query / fragment / auto-submit form, relying party consumes) with seeded hostile parameter values, requests without state, and error responses caused by a failing storage that answers with one reused *oidc.Error value; conservation oracle",
         "one evaluation = one seeded world (router, RP response mode, session state on/off) running 30-60 steps: raw authorization (success or error) with generated state/nonce x response type x mode x redirect URI shape, or a complete login through the real relying party. "
         "The values are seeded generation over Unicode and ASCII punctuation; only the pipeline is simulation. non-trivial = responses were decoded and the RP pipeline ran",
         {"runs": 40, "wall": 90}, {"runs": 8000, "wall": 1200},
-        {"quick": {"_runs": 400, "responses-decoded": 8000, "mode-form_post": 1500, "mode-fragment": 3000, "mode-query": 3000, "pipeline-completed": 3000}, "thorough": {"_runs": 20000}},
+        {"quick": {"_runs": 400, "responses-decoded": 8000, "mode-form_post": 1500, "mode-fragment": 3000, "mode-query": 3000, "pipeline-completed": 3000, "storage-error-responses": 300, "storage-error-responses-without-state": 30, "sentinel": 500}, "thorough": {"_runs": 20000}},
         "Seeded exploration; what the user agent decodes equals what the provider produced and the client sent (code, state, session_state, tokens, error, description), pre-existing query parameters survive, the form has exactly the expected DOM, and fault-free logins complete at the relying party.",
         "DESIGN.md section 4 C11"),
     "C19": flow(
         "W-flows",
-        "deterministic simulation used as a configuration sweep: seeded provider configurations (flags, storage capabilities, custom relative/absolute endpoints, static/host/forwarded issuer, both routers) are probed through discovery, every advertised endpoint and every grant type; concurrent discovery for different hosts",
+        "deterministic simulation used as a configuration sweep: seeded provider configurations (flags, storage capabilities, custom relative/absolute endpoints, static/host/forwarded issuer, both routers) are probed through discovery, every advertised endpoint and every grant type; 2-3 tenants per host-derived world visited in a seeded order (the Forwarded strategy behind a simulated reverse proxy with one internal Host); concurrent discovery for different hosts",
         "one evaluation = one seeded provider configuration: discovery per issuer host, probe of each advertised endpoint, 7 grant-type probes, a complete code flow with S256 (wrong verifier must fail) using only advertised endpoints, a signed request object when advertised, "
         "interleaved discovery for two hosts with host-derived issuers, a 14-row issuer-validation table and 5 hostile discovery documents. Apart from the host interleaving this is a configuration sweep (said plainly). distinct = distinct configuration",
         {"runs": 40, "wall": 90}, {"runs": 20000, "wall": 1200},
-        {"quick": {"_runs": 400, "discovery-fetched": 500, "grant-probes": 3000, "endpoint-probes": 3000, "flows-completed": 500, "issuer-table-rows": 5000, "hostile-documents": 2000, "interleaved-discoveries": 500, "request-object-probes": 100},
+        {"quick": {"_runs": 400, "discovery-fetched": 500, "grant-probes": 3000, "endpoint-probes": 3000, "flows-completed": 500, "issuer-table-rows": 5000, "hostile-documents": 2000, "interleaved-discoveries": 500, "request-object-probes": 100, "multi-tenant-worlds": 100},
          "thorough": {"_runs": 50000}},
         "Seeded exploration of configurations; the document's issuer equals the iss of issued tokens, advertised endpoints are issuer-relative (or the configured absolute URL) and served, grant types are advertised iff not answered unsupported_grant_type, advertised S256 and request objects are honoured, bad issuers are rejected at construction, foreign-issuer documents are rejected by client.Discover.",
         "DESIGN.md section 4 C19"),
@@ -200,9 +203,9 @@ PROPS = {
         "deterministic simulation with fault enumeration: a Byzantine network actor applies every operator of a fixed tamper catalogue to genuinely issued tokens in flight and delivers them to the five real verifier surfaces, under seeded algorithm families and key-set shapes",
         "one evaluation = one seeded world (router, one of 8 algorithms, one of 7 provider key-set shapes) x 5 surfaces (rp.VerifyIDToken over the real remote key set, /userinfo, /end_session id_token_hint, jwt-bearer assertion, request object) x 42 operators "
         "(strip, alg none, 18 HMAC-with-public-key encodings, re-sign, kid games, payload edits, truncation, segment counts, alg outside the allow-list, wrong key type, JSON general/flattened serialisation incl. smuggled payloads, embedded jwk). "
-        "distinct non-trivial = distinct (surface, operator, algorithm, key-set shape) delivered",
+        "Epilogue (a history): the provider rotates and retires its key; the same long-lived verifiers must believe the new key's tokens and, having fetched the new set, reject the retired key's. distinct non-trivial = distinct (surface, operator, algorithm, key-set shape) delivered",
         {"runs": 30, "wall": 90}, {"runs": 6000, "wall": 1200},
-        {"quick": {"_runs": 300, "genuine-accepted": 1000, "tampered-rejected": 40000, "hmac": 10000, "json": 4000, "kidless-probes": 20, "_distinct": 3000}, "thorough": {"_runs": 20000}},
+        {"quick": {"_runs": 300, "genuine-accepted": 1000, "tampered-rejected": 40000, "hmac": 10000, "json": 4000, "kidless-probes": 20, "_distinct": 3000, "rotation-epilogues": 150, "retired": 400}, "thorough": {"_runs": 20000}},
         "Fault enumeration over the stated operator catalogue (complete per world): only the unmodified token (and a kid-less re-signature with exactly one candidate key) may be believed; the claims handed back are those of the signed payload; two fitting keys and no kid must be refused.",
         "DESIGN.md section 4 C02", level="fault_enumeration",
         level_note="Trusted: go-jose's primitives. The catalogue is the manipulation space; no schedule dimension."),
@@ -219,9 +222,9 @@ PROPS = {
         "W-race",
         "deterministic simulation for the isolation half (invariants on package defaults and caller objects after every step of seeded construction/usage programs) plus seeded concurrent mixes on shared instances under the Go race detector (runtime-scheduled goroutines; happens-before analysis is the oracle)",
         "one evaluation = one seeded isolation program of 25-45 steps (construct providers with custom/default endpoints, relying parties, resource servers; EndSession, RevokeToken, Userinfo, Discover, device polling) with the invariants checked after every step, "
-        "plus four seeded goroutine mixes (4-8 goroutines from a barrier) on one provider, one relying party, one resource server + key set, and concurrent construction, all in a -race build. distinct = distinct isolation program",
+        "plus seven seeded goroutine mixes (3-8 goroutines from a barrier, 4 processors) on one provider, one relying party (functions and HTTP handlers), one resource server + key set, concurrent construction (endpoints, issuer strategies) and error answers while the storage returns one reused error value, all in a -race build. distinct = distinct isolation program",
         {"runs": 12, "wall": 120}, {"runs": 3000, "wall": 1500},
-        {"quick": {"_runs": 150, "isolation-programs": 150, "race-mixes": 750, "scheduled-concurrent-logins": 200}, "thorough": {"_runs": 10000}},
+        {"quick": {"_runs": 150, "isolation-programs": 150, "race-mixes": 1000, "scheduled-concurrent-logins": 200, "sentinel-error-requests": 200}, "thorough": {"_runs": 10000}},
         "Isolation: deterministic and replayable. Races: the seed fixes the program, the interleaving is the Go runtime's; a report is a happens-before violation found by the race detector, replayed by re-running the seed under -race (in practice stable, in principle probabilistic).",
         "DESIGN.md section 4 C20",
         level_note="Trusted: the Go race detector. The race half does not control the schedule (the simulator's own channels would create the happens-before edges that hide races); stated in DESIGN.md."),
